@@ -471,8 +471,81 @@ async fn parked_case(uni: bool, keepers: usize, transients: usize, mode: &'stati
     pair.sconn.close(wtransport::VarInt::from_u32(0), b"done");
 }
 
+/// The application starts accepting several seconds after the peer opened its streams: however
+/// long they waited in the driver, every one is still handed out.
+async fn late_acceptor_case(wait: Duration, rep: &mut Report) {
+    let ctx = format!("late-acceptor|wait={}s", wait.as_secs());
+    rep.eval(ctx.clone());
+    let pair = match ends::pair(PairOpts::default()).await {
+        Ok(p) => p,
+        Err(e) => return rep.inconclusive(format!("{ctx}: {e}")),
+    };
+    let (opener, acceptor) = (pair.cconn.clone(), pair.sconn.clone());
+    let mut want = std::collections::BTreeSet::new();
+    let mut keep: Vec<Box<dyn std::any::Any + Send>> = vec![];
+    // opening completes locally; the streams then sit in the peer's driver
+    let opening = async {
+        for i in 0..5u64 {
+            let (mut s, r) = opener.open_bi().await.map_err(|e| e.to_string())?.await.map_err(|e| e.to_string())?;
+            s.write_all(&(0xB1_0000 + i).to_be_bytes()).await.map_err(|e| e.to_string())?;
+            want.insert(0xB1_0000 + i);
+            keep.push(Box::new((s, r)));
+            let mut u = opener.open_uni().await.map_err(|e| e.to_string())?.await.map_err(|e| e.to_string())?;
+            u.write_all(&(0xA1_0000 + i).to_be_bytes()).await.map_err(|e| e.to_string())?;
+            want.insert(0xA1_0000 + i);
+            keep.push(Box::new(u));
+        }
+        Ok::<(), String>(())
+    };
+    match within(Duration::from_secs(20), opening).await {
+        Waited::Done(Ok(())) => {}
+        other => return rep.inconclusive(format!("{ctx}: opening: {:?}", other.done())),
+    }
+    tokio::time::sleep(wait).await;
+    let mut got = std::collections::BTreeSet::new();
+    let accept_all = async {
+        for _ in 0..5 {
+            let (_s, mut r) = acceptor.accept_bi().await.map_err(|e| e.to_string())?;
+            let mut b = [0u8; 8];
+            r.read_exact(&mut b).await.map_err(|e| format!("{e:?}"))?;
+            got.insert(u64::from_be_bytes(b));
+        }
+        for _ in 0..5 {
+            let mut r = acceptor.accept_uni().await.map_err(|e| e.to_string())?;
+            let mut b = [0u8; 8];
+            r.read_exact(&mut b).await.map_err(|e| format!("{e:?}"))?;
+            got.insert(u64::from_be_bytes(b));
+        }
+        Ok::<(), String>(())
+    };
+    let res = within(Duration::from_secs(6), accept_all).await;
+    if got != want {
+        let missing: Vec<String> = want.difference(&got).map(|t| format!("{t:#x}")).collect();
+        match res {
+            Waited::Done(Err(e)) => rep.inconclusive(format!("{ctx}: accept error {e}")),
+            _ => rep.violation(
+                "C08|lost|late-acceptor",
+                format!("{} of 10 streams opened {}s before the application began to accept were never returned: {missing:?}", missing.len(), wait.as_secs()),
+                J::obj([("context", J::s(ctx.clone())), ("missing", J::s(format!("{missing:?}")))]),
+            ),
+        }
+    }
+    pair.cconn.close(wtransport::VarInt::from_u32(0), b"done");
+    drop(keep);
+}
+
 pub fn run(args: &Args) -> Report {
     let mut rep = Report::new();
+    {
+        let rt = crate::runtime(true, 4);
+        rt.block_on(async {
+            late_acceptor_case(Duration::from_secs(5), &mut rep).await;
+            if args.thorough {
+                late_acceptor_case(Duration::from_secs(12), &mut rep).await;
+            }
+        });
+        rt.shutdown_timeout(Duration::from_millis(100));
+    }
     for multi in [true, false] {
         let rt = crate::runtime(multi, 4);
         rt.block_on(async {
